@@ -9,13 +9,17 @@ import (
 	"strconv"
 
 	"luasim/core"
+	"luasim/engines/cancelsweep"
 	"luasim/engines/faultsweep"
+	"luasim/engines/limitswarm"
 	"luasim/engines/streamload"
 )
 
 var specs = map[string]*core.PropertySpec{
 	"C03": {Property: "C03", Engine: faultsweep.New("C03", "closure"), QuickS: 75, ThoroughS: 1200, RunCapS: 300},
 	"C05": {Property: "C05", Engine: faultsweep.New("C05", "containment"), QuickS: 75, ThoroughS: 1800, RunCapS: 300},
+	"C11": {Property: "C11", Engine: cancelsweep.New, QuickS: 60, ThoroughS: 1500, RunCapS: 300},
+	"C12": {Property: "C12", Engine: limitswarm.New, QuickS: 60, ThoroughS: 1500, RunCapS: 300},
 	"C08": {Property: "C08", Engine: streamload.New, QuickS: 45, ThoroughS: 900, RunCapS: 20, HangViolation: true},
 }
 
@@ -48,7 +52,11 @@ func main() {
 		}
 		var rf core.ReplayFile
 		json.Unmarshal(b, &rf)
-		prof := map[string]string{"C05": "containment", "C03": "closure"}[rf.Property]
+		prof := map[string]string{"C05": "containment", "C03": "closure", "C11": "cancel"}[rf.Property]
+		if rf.Property == "C11" {
+			faultsweep.Debug(prof, rf.Tape[1:])
+			return
+		}
 		faultsweep.Debug(prof, rf.Tape)
 		faultsweep.DebugFault(prof, rf.Tape, rf.Aux)
 		return
